@@ -8,10 +8,17 @@ REQUIRED_SHAPES = ["publish_with_pattern_nomatch", "publish_channel_and_pattern_
 
 CHANNELS = [b"news", b"news.a", b"sport", b"n"]
 PATTERNS = [b"news*", b"n*", b"*", b"sport", b"news.?", b"x*"]
+# the empty name is a name: SUBSCRIBE "" / UNSUBSCRIBE "" concern that one channel, not "all"
+CH_E = CHANNELS * 3 + [b""]
+PAT_E = PATTERNS        # (the client library cannot tell a pmessage for the empty pattern from a message)
 
 
 def hx(b):
     return b.hex() if b else "-"
+
+
+def unhx(s):
+    return b"" if s == "-" else bytes.fromhex(s)
 
 
 def glob(p, s):
@@ -48,7 +55,7 @@ class Oracle:
             k = (int(a[0]), int(a[1]))
             pat = name == "ps.psub"
             s = self.subs.setdefault(k, set())
-            item = (pat, bytes.fromhex(a[2]))
+            item = (pat, unhx(a[2]))
             if item in s:
                 self.hit("duplicate_subscribe")
             s.add(item)
@@ -65,7 +72,7 @@ class Oracle:
                     s.discard(x)
                     self.left.add(k + x)
             else:
-                x = (pat, bytes.fromhex(a[2]))
+                x = (pat, unhx(a[2]))
                 if x in s:
                     s.discard(x)
                     self.left.add(k + x)
@@ -78,7 +85,7 @@ class Oracle:
             self.closed = getattr(self, "closed", set()) | {k}
             return None
         if name == "ps.pub":
-            ch = bytes.fromhex(a[1])
+            ch = unhx(a[1])
             msg = a[2]
             exp = {}
             for (m, c), s in self.subs.items():
@@ -119,7 +126,7 @@ class Oracle:
             return None
         if name == "ps.channels":
             m = int(a[0])
-            pat = bytes.fromhex(a[1]) if len(a) > 1 else None
+            pat = unhx(a[1]) if len(a) > 1 else None
             chans = set()
             for (mm, c), s in self.subs.items():
                 if mm == m:
@@ -132,7 +139,7 @@ class Oracle:
             m = int(a[0])
             outs = []
             for chh in a[1:]:
-                ch = bytes.fromhex(chh)
+                ch = unhx(chh)
                 n = sum(1 for (mm, c), s in self.subs.items() if mm == m and (False, ch) in s)
                 outs.append("%s:%d" % (chh, n))
             exp = ",".join(outs) or "-"
@@ -167,18 +174,18 @@ class Gen:
             if 0.58 <= w < 0.63:
                 live.discard((m, c))
             if w < 0.22:
-                yield "ps.sub %d %d %s" % (m, c, hx(r.choice(CHANNELS)))
+                yield "ps.sub %d %d %s" % (m, c, hx(r.choice(CH_E)))
             elif w < 0.40:
-                yield "ps.psub %d %d %s" % (m, c, hx(r.choice(PATTERNS)))
+                yield "ps.psub %d %d %s" % (m, c, hx(r.choice(PAT_E)))
             elif w < 0.50:
-                yield ("ps.unsub %d %d %s" % (m, c, hx(r.choice(CHANNELS)))) if r.random() < 0.7 else "ps.unsub %d %d" % (m, c)
+                yield ("ps.unsub %d %d %s" % (m, c, hx(r.choice(CH_E)))) if r.random() < 0.7 else "ps.unsub %d %d" % (m, c)
             elif w < 0.58:
-                yield ("ps.punsub %d %d %s" % (m, c, hx(r.choice(PATTERNS)))) if r.random() < 0.7 else "ps.punsub %d %d" % (m, c)
+                yield ("ps.punsub %d %d %s" % (m, c, hx(r.choice(PAT_E)))) if r.random() < 0.7 else "ps.punsub %d %d" % (m, c)
             elif w < 0.63:
                 yield "ps.close %d %d" % (m, c)
             elif w < 0.88:
                 seq += 1
-                yield "ps.pub %d %s %s" % (m, hx(r.choice(CHANNELS + [b"other"])), hx(b"m%d" % seq))
+                yield "ps.pub %d %s %s" % (m, hx(r.choice(CH_E + [b"other"] * 3)), hx(b"m%d" % seq))
             elif w < 0.93:
                 yield ("ps.channels %d" % m) if r.random() < 0.6 else "ps.channels %d %s" % (m, hx(r.choice(PATTERNS)))
             elif w < 0.97:
